@@ -18,7 +18,8 @@ DAOFF = "daoff"
 
 def tiers(pid, quick_cfgs=(DAON,), thorough_cfgs=(DAON, DAOFF)):
     p = pid.lower()
-    return {"quick": [(c, ["%s_q_" % p]) for c in quick_cfgs],
+    return {"probe": [(c, ["%s_p_" % p]) for c in quick_cfgs],
+            "quick": [(c, ["%s_q_" % p]) for c in quick_cfgs],
             "thorough": [(c, ["%s_q_" % p, "%s_t_" % p]) for c in thorough_cfgs]}
 
 
@@ -36,4 +37,15 @@ PROPS["C05"] = {
                       "injectivity); items() unwound to symbol count + 2; both build configurations (debug assertions on / off)"},
     "outside": "nothing inside the seven built-in codecs; derived user codecs are C17",
     "explanation": "solver-exhaustive over the finite byte domain, per monomorphic codec instance",
+}
+
+PROPS["C09"] = {
+    "feature": "c09",
+    "tiers": tiers("C09"),
+    "mem_gb": 8,
+    "functions": ["Kmer::{rotated_left,rotated_right,pushl,pushr,complement,rev_blocks_2}", "KmerStorage for usize/u64/u128 "
+                  "(to_bitarray, from_bitslice, complement, rev_blocks_2, shiftr)", "Reverse/Complement/ReverseComplement(+Mut) for Kmer<_,K,usize>"],
+    "bounds": {"all": "storage integer fully symbolic below 2^(K*BITS), per (codec, K, storage) instance listed in coverage.harnesses; "
+                      "rotation counts concrete from {0,1,K-1,K,K+1,2K,65537,u32::MAX}; pushed symbol symbolic"},
+    "outside": "K values not instantiated; symbolic rotation counts",
 }
